@@ -2,6 +2,7 @@ package h
 
 import (
 	"fmt"
+	"strconv"
 	"time"
 
 	z "github.com/Oudwins/zog"
@@ -15,7 +16,7 @@ func init() { Registry["C03"] = C03_Run }
 
 func C03_Jobs() []string {
 	return []string{
-		"int/int", "int/int32", "int/int64", "int/float64", "int/decstr", "int/bool",
+		"int/int", "int/int32", "int/int64", "int/float64", "int/decstr", "int/bool", "int/literal-strings",
 		"int64/int", "int64/decstr", "int32/int32",
 		"float/float64", "float/int", "float/float32", "float/fltstr", "float32/float32",
 		"bool/bool", "bool/words", "bool/int",
@@ -54,6 +55,24 @@ func C03_Run(job string) {
 	a, b, _, _ := split3(job)
 	switch a {
 	case "int":
+		if b == "literal-strings" {
+			// decimal strings are read in base 10 exactly as strconv.Atoi reads them
+			lits := []string{"010", "007", "-0012", "+5", "00501", "0x10", "0b11", "0o17", "1_000", "08", "12", "-0", "9223372036854775807"}
+			s := lits[v.Choice("lit", len(lits))]
+			want, err := strconv.Atoi(s)
+			d := 77
+			errs := z.Int().Parse(s, &d)
+			if err != nil {
+				v.Assert(len(errs) == 1 && errs[0].Code == "coerce" && d == 77, "C03:int-coercion")
+			} else {
+				c03ok(len(errs))
+				v.Assert(d == want, "C03:int-coercion")
+			}
+			var d64 int64
+			e64 := z.Int64().Parse(s, &d64)
+			v.Assert((len(e64) == 0) == (err == nil) && (err != nil || d64 == int64(want)), "C03:int64-coercion")
+			return
+		}
 		n := v.Int("n")
 		d := 7
 		var in any
